@@ -52,3 +52,27 @@ Theorem view_average_time_shift d offsets crossings grid step :
 Proof.
   unfold view_average, view_levels. rewrite view_join_time_shift. split; reflexivity.
 Qed.
+
+(** The writers (rise.py / recession.py) key both tables by the interval's start
+    epoch: writing the same solver result for intervals that all start d later
+    is the key shift above, so the view does not change. *)
+Lemma written_offsets_shift d (start_of : nat -> Z) sids offs :
+  written_offsets (fun s => (start_of s + d)%Z) sids offs
+  = shift_offset_keys d (written_offsets start_of sids offs).
+Proof. unfold written_offsets, shift_offset_keys. rewrite map_map. reflexivity. Qed.
+
+Lemma written_crossings_shift d (start_of : nat -> Z) hm :
+  written_crossings (fun s => (start_of s + d)%Z) hm
+  = shift_crossing_keys d (written_crossings start_of hm).
+Proof.
+  unfold written_crossings, shift_crossing_keys. rewrite flat_map_map_out.
+  apply flat_map_ext. intros p. rewrite map_map. reflexivity.
+Qed.
+
+Theorem written_view_time_shift d (start_of : nat -> Z) hm sids offs grid step :
+  view_average (written_offsets (fun s => (start_of s + d)%Z) sids offs)
+               (written_crossings (fun s => (start_of s + d)%Z) hm) grid step
+  = view_average (written_offsets start_of sids offs) (written_crossings start_of hm) grid step.
+Proof.
+  rewrite written_offsets_shift, written_crossings_shift. apply view_average_time_shift.
+Qed.
